@@ -181,6 +181,80 @@ def run(ctx):
 
     string_block_size_enforced(ctx, c, "C17")
 
+    # every access path finds the string block where the header formula puts it
+    R_sbo = ctx.rule("C17.string-block-located-by-header-formula", "every StringBlock::parse call takes its offset from the header's string_block_offset() (directly or through the parser's stored copy) and its size from string_block_size", floor=2)
+    from .c03 import make_inliner as _mk_inl
+    for f in c.fn_list:
+        if f.kind == "Closure" or not f.hir or "::tests::" in f.path:
+            continue
+        inl = None
+        for cc in hirq.calls(f.hir["body"]):
+            if not (cc.get("fn") or "").endswith("stringblock::StringBlock::parse") or len(cc.get("args") or []) != 3:
+                continue
+            ctx.saw_fn(f)
+            lets_ = {l["pat"]["name"]: l["init"] for l in hirq.find(f.hir["body"], "let") if l["pat"].get("k") == "bind" and l.get("init") is not None}
+
+            def deep(n, d=0):
+                r_ = hirq.render(n)
+                for x in hirq.walk(n):
+                    if x.get("k") == "path" and x["res"].get("local") in lets_ and d < 3:
+                        r_ += " <= " + deep(lets_[x["res"]["local"]], d + 1)
+                return r_
+            off, size = deep(cc["args"][1]), deep(cc["args"][2])
+            if re.search(r"string_block_offset", off) and re.search(r"string_block_size", size):
+                ctx.ok(R_sbo, {"fn": norm(f.path), "offset": off[:60], "size": size[:40]})
+            else:
+                ctx.bad(R_sbo, "%s|string-block-offset" % norm(f.path).split("::")[-2] + "::" + norm(f.path).split("::")[-1], "%s:%d" % (f.file, cc["ln"]), "the string block is read at `%s` (size `%s`)" % (off[:70], size[:30]),
+                        "this access path locates the strings by a rule of its own: for a file with trailing bytes (a smaller table written over a larger one, padding) it resolves every string reference to different text than the other paths")
+
+    # the hashed key map holds record indices: what it stores per key is the record's position in `records`
+    R_km = ctx.rule("C17.key-map-stores-record-index", "every insertion into the key -> index map stores the record's index in the record list (an enumerate() over the records, or the index element carried in the (key, index) pairs) — never a position in a derived/sorted list", floor=2)
+    for f in c.fn_list:
+        if f.kind == "Closure" or not f.hir or "::tests::" in f.path or not re.search(r"parser::RecordSet::", norm(f.path)):
+            continue
+        body = f.hir["body"]
+        # closures are folded in: inspect for-loops and closure bodies alike
+        for ins in hirq.walk(body):
+            if ins.get("k") != "mcall" or ins["m"] != "insert" or len(ins.get("args") or []) != 2:
+                continue
+            recv_ty = c.ty(hirq.strip(ins["recv"]).get("t")) or ""
+            if "HashMap" not in recv_ty or "usize" not in recv_ty:
+                continue
+            v = hirq.strip(ins["args"][1])
+            while v.get("k") in ("un", "cast"):
+                v = hirq.strip(v["e"])
+            if v.get("k") != "path" or "local" not in v["res"]:
+                continue
+            vn = v["res"]["local"]
+            # where is vn bound?
+            origin = None
+            for lp in hirq.find(body, "for"):
+                if vn not in hirq.pat_binds(lp["pat"]) or not any(x is ins for x in hirq.walk(lp["body"])):
+                    continue
+                it = hirq.render(lp["iter"])
+                pat = lp["pat"]
+                top = [s_.get("name") for s_ in pat.get("subs", [])] if pat.get("k") == "tuple" else []
+                if "enumerate()" in it and top and top[0] == vn:
+                    origin = ("position in", re.sub(r"\.iter\(\)|\.enumerate\(\)|&", "", it))
+                else:
+                    origin = ("element of", re.sub(r"\.iter\(\)|\.enumerate\(\)|&", "", it))
+            for cl in hirq.find(body, "closure"):
+                if not any(x is ins for x in hirq.walk(cl["body"])):
+                    continue
+                for p_ in cl.get("params", []) or []:
+                    if vn in hirq.pat_binds(p_):
+                        top = [s_.get("name") for s_ in p_.get("subs", [])] if p_.get("k") == "tuple" else []
+                        origin = ("position in" if top and top[0] == vn else "element of", "closure over an enumerate()")
+            if origin is None:
+                continue
+            ctx.saw_fn(f)
+            good = (origin[0] == "position in" and re.search(r"records", origin[1])) or origin[0] == "element of"
+            if good:
+                ctx.ok(R_km, {"fn": norm(f.path), "stores": "%s %s" % origin})
+            else:
+                ctx.bad(R_km, "%s|key-map-value" % norm(f.path).split("::")[-1], "%s:%d" % (f.file, ins["ln"]), "the map stores `%s`, the %s `%s`" % (vn, origin[0], origin[1][:50]),
+                        "after this runs a hashed lookup returns the record at the key's rank in the sorted list — a record carrying a different key — while the binary-search path still returns the right one")
+
     # the writer emits header, records and string block on every success path
     R_parts = ctx.rule("C17.writer-success-passes-all-parts", "every Ok exit of write_records is dominated by the header writes and passes the record loop head and the string-block write", floor=1)
     wr_ = fns.get("wow_cdbc::writer::DbcWriter::write_records")
